@@ -3,7 +3,7 @@ From Coq Require Import Strings.String.
 From Iso Require Import Model.Base Model.Sexp Model.Padding Model.Encoding Model.Prefix Model.Bitmap Model.Spec Model.Field Model.Message Model.Json.
 
 (* a parsed JSON value: string, integer, object *)
-Inductive jdoc : Type := JS (s : bytes) | JN (z : Z) | JO (kvs : list (bytes * jdoc)).
+Inductive jdoc : Type := JS (s : bytes) | JN (z : Z) | JO (kvs : list (bytes * jdoc)) | JB (b : bool) | JNull.
 
 (* Field.UnmarshalJSON on a parsed value *)
 Fixpoint json_into (s : fspec) (st : fstate) (d : jdoc) : fstate * outcome unit :=
